@@ -20,6 +20,10 @@ def run(ctx):
     opts = [dict(shards=0, watchwithoutclass=True), dict(shards=3, watchwithoutclass=True),
             dict(shards=0, watchwithoutclass=True, reloadinterval_ms=30), dict(shards=3, watchwithoutclass=True, reloadinterval_ms=30)]
     hs = ctl.tlc_histories(ctx, 250 if q else 6000, maxops=2, maxbatches=3, tag="faults", opts=opts, faults=tuple(U.FAULTS))
+    if len(hs) > 16000:
+        # TLC prints every candidate last batch of a simulated history: tens of thousands of histories, each with real waits
+        ctx.rng.shuffle(hs)
+        hs = hs[:16000]
     # every failure point on one fixed history shape, with and without the reload queue, once and twice in a row
     for oi, opt in enumerate(opts):
         for f in U.FAULTS:
